@@ -12,6 +12,10 @@ P2  every scenario enumerated by TLC (initial table, noclobber, limit, command
     (harness/c09 `replay`); the observation records are judged by TLC with the
     oracle (spec/Trace_Redir.tla).  Differences from the driver's own
     prediction that the oracle allows are drift (counted, not reported).
+    Fault injection: besides every RLIMIT_NOFILE value, the n-th call of open /
+    open_tmpfile / F_DUPFD / write / lseek made for the command fails
+    (harness/c09/src/faulty.rs wraps the simulated OS); the driver models each
+    call as a step that may fail after the previous ones succeeded.
 P3  seeded random longer scripts (nesting, pipelines, command substitution,
     here-documents, exec, changing options/limits) are recorded per command
     and judged by the same oracle.
@@ -28,7 +32,7 @@ PID = "C09"
 PKG = "yv-c09"
 
 FAMILY = {"quick": "quick", "thorough": "thorough"}       # union families of spec/Redir.tla (q1..q4 / t1..t4)
-NEGATIVE = {"quick": ["leak", "movenoclose"], "thorough": ["leak", "movenoclose", "fwd", "savelow", "savenocx", "noclobberall", "closesrc",
+NEGATIVE = {"quick": ["leak", "movenoclose", "hereleak"], "thorough": ["leak", "movenoclose", "hereleak", "fwd", "savelow", "savenocx", "noclobberall", "closesrc",
                                             "keepall", "clobber"]}
 RANDOM_RUNS = {"quick": 1200, "thorough": 8000}
 FILE_OPS = ("in", "out", "clob", "app", "rw")
@@ -248,15 +252,24 @@ def run(tier):
              f"records and {len(v3)} of {random_records} random-script command records rejected")
     bad = {v["id"] for v in verdicts}
     drift = {}
+    faults = {"scenarios_with_fault": 0, "fault_fired": 0}
     for rec in vlib.read_ndjson(recs):
         if rec["drift"] and rec["id"] not in bad:
             drift[rec["drift"]] = drift.get(rec["drift"], 0) + 1
+        if rec.get("flt"):
+            faults["scenarios_with_fault"] += 1
+            faults["fault_fired"] += 1 if rec.get("fired") else 0
     _report(rep, recs, v2, "enumerated scenario")
     scripts = {s["run"]: s["script"] for s in vlib.read_ndjson(scr)} if v3 else None
     _report(rep, rrecs, v3, "random script", scripts)
     kinds = {}
+    faults.update({"random_records_with_fault": 0, "random_fault_fired": 0})
     for rec in vlib.read_ndjson(rrecs):
         kinds[rec["kind"]] = kinds.get(rec["kind"], 0) + 1
+        if rec.get("flt"):
+            faults["random_records_with_fault"] += 1
+            faults["random_fault_fired"] += 1 if rec.get("fired") else 0
+    vlib.log(f"[faults] {faults}")
     samples = _samples(recs)
     for p in (recs, rrecs, scr, allrecs):
         os.remove(p)
@@ -284,12 +297,16 @@ def run(tier):
         "records_rejected_by_oracle": len(verdicts),
         "known_finding_hits": {k: v[1] for k, v in rep.known_hits.items()},
         "drift": drift,
+        "fault_injection": faults,
     }, time.time() - t0, violations=len(rep.violations), assumptions=[
         "the shell runs on yash-env's VirtualSystem (simulated OS); descriptor numbers >= 10 are never opened "
         "by the scripts themselves, so every descriptor >= 10 is the shell's own",
         "diagnostic text is unspecified: files that descriptor 2 refers to when a diagnostic is printed are "
         "not compared",
         "under a lowered RLIMIT_NOFILE a redirection may fail for lack of descriptors (allowed, not required)",
+        "fault injection (harness/c09 Faulty system): one call of open / open_tmpfile / F_DUPFD / write / lseek / "
+        "pipe made for the command fails; dup2 and close are not made to fail (dup2 is also what restores the "
+        "table, and the shell ignores close errors)",
         "TLC 1.8.0 and the JSON community module are trusted",
     ])
     return rc
